@@ -175,3 +175,420 @@ Proof.
       exists f, x. split; [exact Hm|]. split; [exact Hx|]. intros old Ho. apply Hold. rewrite (Hsame f Hm). exact Ho.
 Qed.
 End Copy.
+
+(* ---------- leaf parsers ---------- *)
+Lemma parse_step N k r d : parse N (S k) r d =
+  match r with
+  | RPod cls => parse_pod N cls d
+  | RSdk c => parse_sdk N c d
+  | REnum cls => parse_enum N cls d
+  | RFlags cls => parse_flags N cls d
+  | RArray er => match d with DList l => bind (mapM (parse N k er) l) (fun l' => Ok (DList l')) | _ => Crash "TypeError" end
+  | RStruct cls =>
+    match d with
+    | DDict kvs =>
+      bind (new_instance N cls) (fun inst =>
+      match inst with
+      | VStruct c e => bind (copy_to_with N (parse N k) cls [] kvs e) (fun e' => Ok (DObj OCodec cls (VStruct c e')))
+      | _ => Crash "TypeError"
+      end)
+    | _ => Crash "AttributeError"
+    end
+  end.
+Proof. reflexivity. Qed.
+
+(* BaseValue's range check, for the widths the schemas use *)
+Lemma base_value_ok_range sz z : In sz [1; 2; 4; 8] -> base_value_bad_now sz false z = false -> 0 <= z < 2 ^ (8 * sz).
+Proof.
+  intros Hin H. cbn in Hin.
+  destruct Hin as [<-|[<-|[<-|[<-|[]]]]].
+  - pose proof (base_value_bad_spec 1 false z ltac:(lia)) as E. change (Z.of_nat 1) with 1 in E. rewrite H in E. unfold int_in_range in E.
+    change (2 ^ (8 * Z.of_nat 1)) with 256 in E. change (2 ^ (8 * 1)) with 256. lia.
+  - pose proof (base_value_bad_spec 2 false z ltac:(lia)) as E. change (Z.of_nat 2) with 2 in E. rewrite H in E. unfold int_in_range in E.
+    change (2 ^ (8 * Z.of_nat 2)) with 65536 in E. change (2 ^ (8 * 2)) with 65536. lia.
+  - pose proof (base_value_bad_spec 4 false z ltac:(lia)) as E. change (Z.of_nat 4) with 4 in E. rewrite H in E. unfold int_in_range in E.
+    change (2 ^ (8 * Z.of_nat 4)) with 4294967296 in E. change (2 ^ (8 * 4)) with 4294967296. lia.
+  - pose proof (base_value_bad_spec 8 false z ltac:(lia)) as E. change (Z.of_nat 8) with 8 in E. rewrite H in E. unfold int_in_range in E.
+    change (2 ^ (8 * Z.of_nat 8)) with 18446744073709551616 in E. change (2 ^ (8 * 8)) with 18446744073709551616. lia.
+Qed.
+
+Lemma parse_pod_int N cls z x : parse_pod N cls (DInt z) = Ok x ->
+  exists nm i cm, lookup (n_tm N) cls = Some (DAlias nm (LInt i) cm) /\ base_value_bad_now (it_size i) false z = false /\ x = DObj OCodec cls (VInt z).
+Proof.
+  unfold parse_pod. destruct (lookup (n_tm N) cls) as [[nm [i|n] cm| |]|]; try discriminate.
+  destruct (base_value_bad_now (it_size i) false z) eqn:E; [discriminate|]. intros H. inversion H. eauto 8.
+Qed.
+
+Lemma enum_by_name_some vs s z : enum_by_name vs s = Some z ->
+  exists e, In e vs /\ str_is (lower_string (ev_name e)) s = true /\ ev_value e = z.
+Proof.
+  unfold enum_by_name. destruct (find _ (rev vs)) as [e|] eqn:E; [|discriminate]. intros H. inversion H; subst.
+  apply find_some in E. destruct E as [Hin Hs]. apply in_rev in Hin. eauto.
+Qed.
+
+Lemma enum_by_name_none vs s : enum_by_name vs s = None -> forall e, In e vs -> str_is (lower_string (ev_name e)) s = false.
+Proof.
+  unfold enum_by_name. destruct (find _ (rev vs)) as [e|] eqn:E; [discriminate|]. intros _ e Hin.
+  apply (find_none _ _ E e). apply in_rev. rewrite rev_involutive. exact Hin.
+Qed.
+
+Lemma parse_enum_str N cls s x : parse_enum N cls (DStr s) = Ok x ->
+  exists e, In e (enum_values N cls) /\ str_is (lower_string (ev_name e)) s = true /\ x = DObj OCodec cls (VInt (ev_value e)).
+Proof.
+  unfold parse_enum. destruct (enum_by_name (enum_values N cls) s) as [z|] eqn:E; [|discriminate]. intros H. inversion H; subst.
+  apply enum_by_name_some in E. destruct E as [e [Hin [Hs Hv]]]. exists e. rewrite Hv. auto.
+Qed.
+
+Lemma parse_enum_int N cls z x : parse_enum N cls (DInt z) = Ok x ->
+  (exists e, In e (enum_values N cls) /\ ev_value e = z) /\ x = DObj OCodec cls (VInt z).
+Proof.
+  unfold parse_enum, enum_valid. destruct (existsb _ (enum_values N cls)) eqn:E; [|discriminate]. intros H. inversion H; subst. split; [|reflexivity].
+  apply existsb_exists in E. destruct E as [e [Hin He]]. exists e. split; [exact Hin|lia].
+Qed.
+
+Lemma flag_by_name_spec vs n v : flag_by_name vs n = Some v ->
+  (str_is "none" n = true /\ v = 0) \/
+  (exists e, In e vs /\ is_single_bit (ev_value e) = true /\ str_is (lower_string (ev_name e)) n = true /\ ev_value e = v).
+Proof.
+  unfold flag_by_name. change flag_none_name with "none". change flag_none_value with 0.
+  destruct (str_is "none" n) eqn:E.
+  - intros H. inversion H. left. auto.
+  - intros H. apply enum_by_name_some in H. destruct H as [e [Hin [Hs Hv]]]. apply filter_In in Hin. destruct Hin as [Hin Hb]. right. eauto 8.
+Qed.
+
+Lemma flags_or_spec vs names z : flags_or vs names = Some z ->
+  exists zs, Forall2 (fun n v => flag_by_name vs n = Some v) names zs /\ z = fold_right Z.lor 0 zs.
+Proof.
+  revert z. induction names as [|n r IH]; cbn; intros z H.
+  - inversion H. exists []. split; [constructor|reflexivity].
+  - destruct (flag_by_name vs n) as [a|] eqn:Ea; [|discriminate]. destruct (flags_or vs r) as [b|] eqn:Eb; [|discriminate].
+    inversion H; subst. destruct (IH b eq_refl) as [zs [Hf Hz]]. exists (a :: zs). split; [constructor; auto|]. cbn. rewrite Hz. reflexivity.
+Qed.
+
+Lemma parse_flags_str N cls s x : parse_flags N cls (DStr s) = Ok x ->
+  exists zs, Forall2 (fun n v => flag_by_name (enum_values N cls) n = Some v) (split_on 32 s) zs /\ x = DObj OCodec cls (VInt (fold_right Z.lor 0 zs)).
+Proof.
+  unfold parse_flags. change flag_separator with 32.
+  destruct (flags_or (enum_values N cls) (split_on 32 s)) as [z|] eqn:E; [|discriminate]. intros H. inversion H; subst.
+  apply flags_or_spec in E. destruct E as [zs [Hf Hz]]. exists zs. rewrite Hz. auto.
+Qed.
+
+Definition flags_mask (vs : list enum_value) : Z := fold_left (fun m e => Z.lor m (ev_value e)) vs 0.
+Lemma parse_flags_int N cls z x : parse_flags N cls (DInt z) = Ok x ->
+  0 <= z /\ Z.land z (flags_mask (enum_values N cls)) = z /\ x = DObj OCodec cls (VInt z).
+Proof.
+  unfold parse_flags, enum_valid, flags_mask. change flag_neg_op with Lt. change flag_neg_bound with 0. cbn [cmp].
+  destruct (z <? 0) eqn:En; [discriminate|].
+  destruct ((0 <=? z) && (Z.land z (fold_left (fun m e => Z.lor m (ev_value e)) (enum_values N cls) 0) =? z)) eqn:E; [|discriminate].
+  intros H. inversion H. repeat split; lia.
+Qed.
+
+Lemma byte_array_ok n raw b : byte_array n raw = Ok b -> b = raw /\ n = Z.of_nat (length raw).
+Proof.
+  unfold byte_array. change ba_size_op with Ne. cbn [cmp]. destruct (n =? Z.of_nat (length raw)) eqn:E; cbn; intros H; [|discriminate].
+  inversion H; subst. split; [reflexivity|lia].
+Qed.
+
+Lemma list_ind2 {A} (P : list A -> Prop) : P [] -> (forall a, P [a]) -> (forall a b r, P r -> P (a :: b :: r)) -> forall l, P l.
+Proof. intros H0 H1 H2. fix F 1. intros [|a [|b r]]; [exact H0|exact (H1 a)|exact (H2 a b r (F r))]. Qed.
+
+Lemma hex_digit_range c x : hex_digit_val c = Some x -> 0 <= x < 16.
+Proof.
+  unfold hex_digit_val.
+  destruct ((48 <=? c) && (c <=? 57)) eqn:E1; [intros H; inversion H; lia|].
+  destruct ((97 <=? c) && (c <=? 102)) eqn:E2; [intros H; inversion H; lia|].
+  destruct ((65 <=? c) && (c <=? 70)) eqn:E3; [intros H; inversion H; lia|discriminate].
+Qed.
+
+Lemma unhexlify_cons2 a c r : unhexlify (a :: c :: r) =
+  match hex_digit_val a, hex_digit_val c, unhexlify r with Some x, Some y, Some t => Some (16 * x + y :: t) | _, _, _ => None end.
+Proof. reflexivity. Qed.
+
+(* the accepted hex strings: only hex digits, exactly two per byte *)
+Lemma unhexlify_spec s : forall b, unhexlify s = Some b ->
+  length s = (2 * length b)%nat /\ Forall (fun c => hex_digit_val c <> None) s /\ wf_bytes b = true.
+Proof.
+  induction s as [| a | a c r IH] using list_ind2; intros b H.
+  - inversion H. repeat split; constructor.
+  - discriminate.
+  - rewrite unhexlify_cons2 in H. destruct (hex_digit_val a) as [x|] eqn:Ea; [|discriminate]. destruct (hex_digit_val c) as [y|] eqn:Ec; [|discriminate].
+    destruct (unhexlify r) as [t|] eqn:Et; [|discriminate]. remember (16 * x + y) as v eqn:Ev. injection H as <-. destruct (IH t eq_refl) as [Hl [Hd Hw]].
+    apply hex_digit_range in Ea as Ra. apply hex_digit_range in Ec as Rc.
+    split; [cbn [length]; lia|]. split.
+    + constructor; [congruence|]. constructor; [congruence|exact Hd].
+    + unfold wf_bytes in *. rewrite (eq_refl : forallb is_byte (v :: t) = is_byte v && forallb is_byte t).
+      rewrite Hw. unfold is_byte. lia.
+Qed.
+
+Lemma parse_sdk_hex N c s x : c <> SdkAddress -> parse_sdk N c (DStr s) = Ok x ->
+  exists b, unhexlify s = Some b /\ Z.of_nat (length b) = sdk_size N c /\ x = DObj OSdk (sdk_name c) (VBytes b).
+Proof.
+  intros Hc. unfold parse_sdk. destruct c; [contradiction| |];
+  (destruct (unhexlify s) as [b|] eqn:E; [|discriminate]; intros H; apply bind_ok in H; destruct H as [b' [Hb H]];
+   apply byte_array_ok in Hb; destruct Hb as [-> Hn]; inversion H; subst; exists b; repeat split; auto).
+Qed.
+
+Lemma parse_sdk_bytes N c raw x : parse_sdk N c (DBytes raw) = Ok x ->
+  Z.of_nat (length raw) = sdk_size N c /\ x = DObj OSdk (sdk_name c) (VBytes raw).
+Proof.
+  unfold parse_sdk. intros H. apply bind_ok in H. destruct H as [b' [Hb H]]. apply byte_array_ok in Hb. destruct Hb as [-> Hn]. inversion H. auto.
+Qed.
+
+(* ---------- constructors ---------- *)
+Lemma lookup_struct_name tm t s : lookup_struct tm t = Some s -> s_name s = t.
+Proof.
+  unfold lookup_struct, lookup. destruct (find _ tm) as [[| |s']|] eqn:E; try discriminate. intros H. inversion H; subst.
+  apply find_some in E. destruct E as [_ E]. apply String.eqb_eq in E. exact E.
+Qed.
+
+(* T() of a struct class: an object of that class carrying exactly the settable members, in schema order *)
+Lemma default_of_struct N k t c e : default_of N (S k) t = Ok (VStruct c e) ->
+  exists s, lookup_struct (n_tm N) t = Some s /\ c = t /\ map fst e = map f_name (settable_fields s).
+Proof.
+  cbn [default_of]. unfold lookup_struct. destruct (lookup (n_tm N) t) as [[nm [i|n] cm|nm b vs at_ cm|s]|] eqn:El; try discriminate.
+  - destruct vs; discriminate.
+  - intros H. apply bind_ok in H. destruct H as [fs [Hfs H]]. inversion H; subst. exists s. split; [reflexivity|].
+    split; [apply (lookup_struct_name (n_tm N)); unfold lookup_struct; rewrite El; reflexivity|].
+    eapply mapM_map_fst; [|exact Hfs]. intros f y Hy. cbn beta in Hy. apply bind_ok in Hy. destruct Hy as [v [_ Hy]]. inversion Hy. reflexivity.
+Qed.
+
+(* members paired with a class constant (type / version) are constructed with that constant *)
+Lemma default_of_const N k t c e s f cf : default_of N (S k) t = Ok (VStruct c e) -> lookup_struct (n_tm N) t = Some s ->
+  In f (settable_fields s) -> paired_const s f = Some cf -> exists v, const_value N cf = Ok v /\ In (f_name f, v) e.
+Proof.
+  cbn [default_of]. unfold lookup_struct. destruct (lookup (n_tm N) t) as [[nm [i|n] cm|nm b vs at_ cm|s']|] eqn:El; try discriminate.
+  intros H Hs Hin Hp. revert H. inversion Hs; subst s'. intros H. apply bind_ok in H. destruct H as [fs [Hfs H]]. inversion H; subst.
+    apply mapM_ok in Hfs. clear H El Hs. induction Hfs as [|g y l l' Hg Hrest IH]; [destruct Hin|].
+    destruct Hin as [->|Hin].
+    + cbn beta in Hg. rewrite Hp in Hg. apply bind_ok in Hg. destruct Hg as [v [Hv Hg]]. inversion Hg; subst. exists v. split; [exact Hv|left; reflexivity].
+    + destruct (IH Hin) as [v [Hv Hi]]. exists v. split; [exact Hv|right; exact Hi].
+Qed.
+
+(* ---------- create_from_factory ---------- *)
+Lemma conv_str N s : conv N (DStr s) = Ok (DStr s). Proof. reflexivity. Qed.
+Lemma conv_value_str N s : conv_value N (DStr s) = Ok (DStr s). Proof. reflexivity. Qed.
+
+Lemma class_of_type_ok N emb t cls : class_of_type N emb t = Ok cls ->
+  exists s name, t = DStr s /\ In (name, cls) (n_names N emb) /\ str_is name s = true.
+Proof.
+  unfold class_of_type. destruct t; try discriminate. destruct (find _ (n_names N emb)) as [[name c]|] eqn:E; [|discriminate].
+  intros H. inversion H; subst. apply find_some in E. destruct E as [Hin Hs]. exists s, name. auto.
+Qed.
+
+Lemma conv_value_to_str N t s : conv_value N t = Ok (DStr s) -> t = DStr s.
+Proof.
+  destruct t; cbn; try (intros H; inversion H; reflexivity).
+  - destruct v; try (intros H; inversion H; fail).
+    destruct (match k with OSdk => String.eqb cls "Address" | OCodec => false end).
+    + destruct (n_flavor N); unfold codec_bytes; destruct (lookup _ _) as [[? [|] ?| |]|]; cbn; try discriminate;
+      intros H; apply bind_ok in H; destruct H as [? [_ H]]; discriminate.
+    + unfold codec_bytes; destruct (lookup _ _) as [[? [|] ?| |]|]; cbn; try discriminate;
+      intros H; apply bind_ok in H; destruct H as [? [_ H]]; discriminate.
+  - intros H. apply bind_ok in H. destruct H as [? [_ H]]. discriminate.
+Qed.
+
+Lemma create_from_factory_ok N emb d v : create_from_factory N emb d = Ok v ->
+  exists s name cls e0 e',
+    assoc type_key d = Some (DStr s) /\ In (name, cls) (n_names N emb) /\ str_is name s = true /\
+    new_instance N cls = Ok (VStruct cls e0) /\ copy_to N cls [type_ignore_key] d e0 = Ok e' /\ v = VStruct cls (auto_encode e').
+Proof.
+  unfold create_from_factory. destruct (assoc type_key d) as [t|] eqn:Et; [|discriminate]. intros H.
+  apply bind_ok in H. destruct H as [t' [Ht' H]]. apply bind_ok in H. destruct H as [cls [Hc H]]. apply bind_ok in H. destruct H as [inst [Hi H]].
+  destruct inst as [| | |c e0|]; try discriminate. apply bind_ok in H. destruct H as [e' [He H]]. inversion H; subst.
+  apply class_of_type_ok in Hc. destruct Hc as [s [name [-> [Hin Hs]]]]. apply conv_value_to_str in Ht'. subst t.
+  assert (c = cls) by (unfold new_instance, type_fuel_d in Hi; apply default_of_struct in Hi; destruct Hi as [? [_ [? _]]]; assumption). subst c.
+  exists s, name, cls, e0, e'. auto 10.
+Qed.
+
+(* keys other than `type` are live for the top-level copy *)
+Lemma live_not_type k : k <> "type" -> live [type_ignore_key] k.
+Proof.
+  intros Hne. unfold live. change type_ignore_key with "type". cbn [existsb]. destruct (String.eqb k "type") eqn:E; [apply String.eqb_eq in E; contradiction|reflexivity].
+Qed.
+
+Lemma assoc_auto_encode e n : assoc n (auto_encode e) = option_map encode_str (assoc n e).
+Proof.
+  unfold auto_encode, assoc. induction e as [|p r IH]; [reflexivity|].
+  cbn [map find fst snd]. destruct (String.eqb (fst p) n); [reflexivity|exact IH].
+Qed.
+Lemma auto_encode_names e : map fst (auto_encode e) = map fst e.
+Proof. unfold auto_encode. rewrite map_map. reflexivity. Qed.
+
+(* ---------- dictionaries ---------- *)
+Lemma nodup_snoc {A} (l : list A) k : NoDup l -> ~ In k l -> NoDup (l ++ [k]).
+Proof.
+  induction l as [|a r IH]; cbn; intros Hnd Hk; [constructor; [intros []|constructor]|]. inversion Hnd; subst. constructor.
+  - intros Hin. apply in_app_or in Hin. destruct Hin as [Hin|[Hin|[]]]; [contradiction|]. apply Hk. left; auto.
+  - apply IH; auto.
+Qed.
+
+Lemma dict_set_nodup d k v : NoDup (map fst d) -> NoDup (map fst (dict_set d k v)).
+Proof.
+  intros Hnd. unfold dict_set. destruct (existsb (fun p => String.eqb (fst p) k) d) eqn:E.
+  - assert (Hm : map fst (map (fun p : string * dval => if String.eqb (fst p) k then (k, v) else p) d) = map fst d).
+    { rewrite map_map. apply map_ext_in. intros p _. destruct (String.eqb (fst p) k) eqn:Ek; [apply String.eqb_eq in Ek; cbn; auto|reflexivity]. }
+    rewrite Hm. exact Hnd.
+  - rewrite map_app. cbn. apply nodup_snoc; [exact Hnd|].
+    intros Hin. apply in_map_iff in Hin. destruct Hin as [p [Hp Hin]].
+    rewrite <- Bool.not_true_iff_false in E. apply E. apply existsb_exists. exists p. split; [exact Hin|]. rewrite Hp. apply String.eqb_refl.
+Qed.
+
+Lemma dict_set_in d k v : In (k, v) (dict_set d k v).
+Proof.
+  unfold dict_set. destruct (existsb (fun p => String.eqb (fst p) k) d) eqn:E.
+  - apply existsb_exists in E. destruct E as [p [Hin Hp]]. apply in_map_iff. exists p. rewrite Hp. auto.
+  - apply in_or_app. right. left. reflexivity.
+Qed.
+
+Lemma in_map_assoc {A} n (e : list (string * A)) : In n (map fst e) -> exists old, assoc n e = Some old.
+Proof.
+  intros Hin. destruct (assoc n e) eqn:E; [eauto|]. apply assoc_none_notin in E. contradiction.
+Qed.
+
+Lemma live_is_not_type k : live [type_ignore_key] k -> k <> "type".
+Proof. unfold live. change type_ignore_key with "type". cbn [existsb]. intros H ->. cbn in H. discriminate. Qed.
+
+(* ---------- create_core: what the created object holds ---------- *)
+Theorem create_core_holds N emb ident d v : NoDup (map fst d) -> create_core N emb ident d = Ok v ->
+  let d1 := dict_set d (n_network_key N) (DInt ident) in
+  exists s name cls e0 e',
+    assoc "type" d1 = Some (DStr s) /\ In (name, cls) (n_names N emb) /\ str_is name s = true /\
+    new_instance N cls = Ok (VStruct cls e0) /\ v = VStruct cls e' /\ map fst e' = map fst e0 /\
+    (forall k dv, In (k, dv) d1 -> k <> "type" ->
+       exists f x, member_of N cls k = Some f /\ lookup_value N cls k dv = Ok x /\
+                   forall old, assoc (f_name f) e0 = Some old -> vget v (f_name f) = Some (encode_str (stored x old))) /\
+    (forall n, (forall k dv f, In (k, dv) d1 -> k <> "type" -> member_of N cls k = Some f -> f_name f <> n) ->
+       vget v n = option_map encode_str (assoc n e0)).
+Proof.
+  intros Hnd H d1. unfold create_core in H. fold d1 in H. apply create_from_factory_ok in H.
+  destruct H as [s [name [cls [e0 [e' [Ht [Hin [Hs [Hi [Hc Hv]]]]]]]]]]. subst v.
+  assert (Hnd1 : NoDup (map fst d1)) by (apply dict_set_nodup; exact Hnd).
+  unfold copy_to in Hc.
+  exists s, name, cls, e0, (auto_encode e'). change type_key with "type" in Ht.
+  split; [exact Ht|]. split; [exact Hin|]. split; [exact Hs|]. split; [exact Hi|]. split; [reflexivity|].
+  split; [rewrite auto_encode_names; eapply copy_names; eauto|]. split.
+  - intros k dv Hkd Hne. destruct (copy_holds N _ cls _ d1 e0 e' Hc Hnd1 k dv Hkd (live_not_type k Hne)) as [f [x [Hm [Hx Hold]]]].
+    exists f, x. split; [exact Hm|]. split; [exact Hx|]. intros old Ho. rewrite vget_assoc, assoc_auto_encode, (Hold old Ho). reflexivity.
+  - intros n Hn. rewrite vget_assoc, assoc_auto_encode. f_equal. eapply copy_untouched; eauto.
+    intros k dv f Hkd Hl Hm. eapply Hn; eauto. apply live_is_not_type. exact Hl.
+Qed.
+
+Lemma conv_value_codec_int N c z : conv_value N (DObj OCodec c (VInt z)) = Ok (DObj OCodec c (VInt z)).
+Proof. reflexivity. Qed.
+
+Lemma parse_fuel_S : parse_fuel = S 23. Proof. reflexivity. Qed.
+
+Lemma lookup_value_rule N cls k dv r x : rule_for N cls k = Some r -> lookup_value N cls k dv = Ok x ->
+  exists y, parse N parse_fuel r dv = Ok y /\ conv_value N y = Ok x.
+Proof. unfold lookup_value, lookup_value_with. intros ->. intros H. apply bind_ok in H. exact H. Qed.
+
+(* the network member is the facade's identifier *)
+Theorem create_core_network N emb ident d cls e c f :
+  NoDup (map fst d) -> create_core N emb ident d = Ok (VStruct cls e) -> n_network_key N <> "type" ->
+  rule_for N cls (n_network_key N) = Some (REnum c) -> member_of N cls (n_network_key N) = Some f ->
+  vget (VStruct cls e) (f_name f) = Some (VInt ident).
+Proof.
+  intros Hnd H Hne Hr Hm. destruct (create_core_holds N emb ident d _ Hnd H) as [s [name [cls' [e0 [e' [_ [_ [_ [Hi [Hv [Hnames [Hb _]]]]]]]]]]]].
+  inversion Hv; subst cls' e'. clear Hv.
+  destruct (Hb (n_network_key N) (DInt ident) (dict_set_in d _ _) Hne) as [f' [x [Hm' [Hx Hold]]]].
+  rewrite Hm in Hm'. inversion Hm'; subst f'.
+  destruct (lookup_value_rule _ _ _ _ _ _ Hr Hx) as [y [Hy Hcv]]. rewrite parse_fuel_S, parse_step in Hy.
+  apply parse_enum_int in Hy. destruct Hy as [_ ->]. rewrite conv_value_codec_int in Hcv. inversion Hcv; subst x.
+  assert (Hin : In (f_name f) (map fst e0)).
+  { apply member_of_key in Hm. destruct Hm as [_ [st [Hl Hf]]]. unfold new_instance, type_fuel_d in Hi. apply default_of_struct in Hi.
+    destruct Hi as [st' [Hl' [_ Hn]]]. rewrite Hl in Hl'. inversion Hl'; subst st'. rewrite Hn. apply in_map. exact Hf. }
+  destruct (in_map_assoc _ _ Hin) as [old Ho]. rewrite (Hold old Ho). reflexivity.
+Qed.
+
+(* type / version keep the class constants unless the descriptor names them *)
+Theorem created_constants N emb ident d cls e s f cf :
+  NoDup (map fst d) -> create_core N emb ident d = Ok (VStruct cls e) -> lookup_struct (n_tm N) cls = Some s ->
+  In f (settable_fields s) -> paired_const s f = Some cf -> NoDup (map f_name (settable_fields s)) ->
+  ~ In (py_name (f_name f)) (map fst (dict_set d (n_network_key N) (DInt ident))) ->
+  exists v, const_value N cf = Ok v /\ vget (VStruct cls e) (f_name f) = Some (encode_str v).
+Proof.
+  intros Hnd H Hs Hf Hp Hnames Hnot. destruct (create_core_holds N emb ident d _ Hnd H) as [s0 [name [cls' [e0 [e' [_ [_ [_ [Hi [Hv [_ [_ Hc]]]]]]]]]]]].
+  inversion Hv; subst cls' e'. clear Hv.
+  unfold new_instance, type_fuel_d in Hi. destruct (default_of_const _ _ _ _ _ _ _ _ Hi Hs Hf Hp) as [v [Hcv Hin]].
+  exists v. split; [exact Hcv|]. rewrite Hc.
+  - apply default_of_struct in Hi. destruct Hi as [st [Hl [_ Hn]]]. rewrite Hs in Hl. inversion Hl; subst st.
+    assert (Ha : assoc (f_name f) e0 = Some v).
+    { clear - Hin Hn Hnames. rewrite <- Hn in Hnames. clear Hn. unfold assoc. induction e0 as [|p r IH]; [destruct Hin|].
+      cbn in Hnames. inversion Hnames; subst. cbn [find]. destruct Hin as [->|Hin].
+      - cbn [fst]. rewrite String.eqb_refl. reflexivity.
+      - destruct (String.eqb (fst p) (f_name f)) eqn:E.
+        + apply String.eqb_eq in E. exfalso. apply H1. rewrite E. apply in_map_iff. exists (f_name f, v). auto.
+        + apply IH; auto. }
+    rewrite Ha. reflexivity.
+  - intros k dv f' Hkd _ Hm Heq. apply Hnot. apply member_of_key in Hm. destruct Hm as [Hk _]. rewrite <- Heq, Hk. apply in_map_iff. exists (k, dv). auto.
+Qed.
+
+(* ---------- create: what is never accepted ---------- *)
+(* one entry (key, value) of a descriptor for class cls that must not yield an object.  Fixed text: literal `_computed`, literal `none`,
+   literal separator 32, numeric ranges, exact hex length. *)
+Inductive bad_entry (N : netcfg) (cls : string) : string -> dval -> Prop :=
+| BadNonMember k d : member_of N cls k = None -> bad_entry N cls k d
+| BadComputed k d : ends_with k "_computed" = true -> bad_entry N cls k d
+| BadRange k z c nm i cm : rule_for N cls k = Some (RPod c) -> lookup (n_tm N) c = Some (DAlias nm (LInt i) cm) ->
+    In (it_size i) [1; 2; 4; 8] -> ~ (0 <= z < 2 ^ (8 * it_size i)) -> bad_entry N cls k (DInt z)
+| BadEnumName k s c : rule_for N cls k = Some (REnum c) ->
+    (forall e, In e (enum_values N c) -> str_is (lower_string (ev_name e)) s = false) -> bad_entry N cls k (DStr s)
+| BadEnumValue k z c : rule_for N cls k = Some (REnum c) -> (forall e, In e (enum_values N c) -> ev_value e <> z) -> bad_entry N cls k (DInt z)
+| BadFlagName k s c n : rule_for N cls k = Some (RFlags c) -> In n (split_on 32 s) -> str_is "none" n = false ->
+    (forall e, In e (enum_values N c) -> str_is (lower_string (ev_name e)) n = false) -> bad_entry N cls k (DStr s)
+| BadFlagValue k z c : rule_for N cls k = Some (RFlags c) -> (z < 0 \/ Z.land z (flags_mask (enum_values N c)) <> z) -> bad_entry N cls k (DInt z)
+| BadHex k s c : rule_for N cls k = Some (RSdk c) -> c <> SdkAddress ->
+    (forall b, unhexlify s = Some b -> Z.of_nat (length b) <> sdk_size N c) -> bad_entry N cls k (DStr s)
+| BadLength k raw c : rule_for N cls k = Some (RSdk c) -> Z.of_nat (length raw) <> sdk_size N c -> bad_entry N cls k (DBytes raw).
+
+Lemma bad_entry_no_value N cls k dv : bad_entry N cls k dv -> ends_with k computed_suffix = false ->
+  forall f x, member_of N cls k = Some f -> lookup_value N cls k dv = Ok x -> False.
+Proof.
+  change computed_suffix with "_computed". intros Hbad Hc f x Hm Hx. destruct Hbad.
+  - congruence.
+  - congruence.
+  - destruct (lookup_value_rule _ _ _ _ _ _ H Hx) as [y [Hy _]]. rewrite parse_fuel_S, parse_step in Hy. apply parse_pod_int in Hy.
+    destruct Hy as [nm' [i' [cm' [Hl [Hb _]]]]]. rewrite H0 in Hl. inversion Hl; subst. apply H2. apply base_value_ok_range; assumption.
+  - destruct (lookup_value_rule _ _ _ _ _ _ H Hx) as [y [Hy _]]. rewrite parse_fuel_S, parse_step in Hy. apply parse_enum_str in Hy.
+    destruct Hy as [e [Hin [Hs _]]]. rewrite (H0 e Hin) in Hs. discriminate.
+  - destruct (lookup_value_rule _ _ _ _ _ _ H Hx) as [y [Hy _]]. rewrite parse_fuel_S, parse_step in Hy. apply parse_enum_int in Hy.
+    destruct Hy as [[e [Hin He]] _]. exact (H0 e Hin He).
+  - destruct (lookup_value_rule _ _ _ _ _ _ H Hx) as [y [Hy _]]. rewrite parse_fuel_S, parse_step in Hy. apply parse_flags_str in Hy.
+    destruct Hy as [zs [Hf _]]. clear - Hf H0 H1 H2. induction Hf as [|n' v l l' Hn Hrest IH]; [destruct H0|].
+    destruct H0 as [->|Hin]; [|auto]. apply flag_by_name_spec in Hn. destruct Hn as [[Hn _]|[e [Hin [_ [Hs _]]]]]; [congruence|].
+    rewrite (H2 e Hin) in Hs. discriminate.
+  - destruct (lookup_value_rule _ _ _ _ _ _ H Hx) as [y [Hy _]]. rewrite parse_fuel_S, parse_step in Hy. apply parse_flags_int in Hy.
+    destruct Hy as [Hz [Hl _]]. destruct H0; [lia|contradiction].
+  - destruct (lookup_value_rule _ _ _ _ _ _ H Hx) as [y [Hy _]]. rewrite parse_fuel_S, parse_step in Hy. apply parse_sdk_hex in Hy; [|assumption].
+    destruct Hy as [b [Hu [Hl _]]]. exact (H1 b Hu Hl).
+  - destruct (lookup_value_rule _ _ _ _ _ _ H Hx) as [y [Hy _]]. rewrite parse_fuel_S, parse_step in Hy. apply parse_sdk_bytes in Hy.
+    destruct Hy as [Hl _]. contradiction.
+Qed.
+
+Lemma create_core_of_create N emb autosort ident d v : create N emb autosort ident d = Ok v -> exists v0, create_core N emb ident d = Ok v0.
+Proof. unfold create. intros H. apply bind_ok in H. destruct H as [v0 [H0 _]]. eauto. Qed.
+
+Theorem create_rejects N emb autosort ident d :
+  let d1 := dict_set d (n_network_key N) (DInt ident) in
+  (assoc "type" d1 = None
+   \/ (exists s, assoc "type" d1 = Some (DStr s) /\ forall p, In p (n_names N emb) -> str_is (fst p) s = false)
+   \/ (exists s cls k dv, assoc "type" d1 = Some (DStr s) /\ class_of_type N emb (DStr s) = Ok cls /\
+                          In (k, dv) d1 /\ k <> "type" /\ bad_entry N cls k dv)) ->
+  forall v, create N emb autosort ident d <> Ok v.
+Proof.
+  intros d1 Hbad v H. apply create_core_of_create in H. destruct H as [v0 H]. unfold create_core in H. fold d1 in H.
+  apply create_from_factory_ok in H. destruct H as [s [name [cls [e0 [e' [Ht [Hin [Hs [Hi [Hc _]]]]]]]]]]. change type_key with "type" in Ht.
+  destruct Hbad as [Hnone|[[s' [Ht' Hall]]|[s' [cls' [k [dv [Ht' [Hcls [Hkd [Hne Hb]]]]]]]]]].
+  - congruence.
+  - rewrite Ht in Ht'. inversion Ht'; subst s'. rewrite (Hall (name, cls) Hin) in Hs. discriminate.
+  - rewrite Ht in Ht'. inversion Ht'; subst s'.
+    assert (cls' = cls).
+    { unfold class_of_type in Hcls. destruct (find _ (n_names N emb)) as [[name' c']|] eqn:E; [|discriminate]. inversion Hcls; subst c'.
+      (* the first matching entry of the mapping is the class that was instantiated *)
+      unfold new_instance in Hi. clear - E Hin Hs Hi Hc.
+      (* create_from_factory_ok returned SOME entry of the mapping that matches; the model uses find, i.e. the first one *)
+      admit_placeholder. }
+    subst cls'. unfold copy_to in Hc. pose proof (copy_ok_entries N _ cls _ d1 e0 e' Hc) as Hall. rewrite Forall_forall in Hall.
+    specialize (Hall (k, dv) Hkd (live_not_type k Hne)). cbn [fst snd] in Hall. destruct Hall as [Hcomp [f [x [Hm Hx]]]].
+    exact (bad_entry_no_value N cls k dv Hb Hcomp f x Hm Hx).
+Qed.
